@@ -59,7 +59,8 @@ package leader
 //@ field kvElection.termCancel        guarded_by(mu)
 //@ field kvElection.onPromote          guarded_by(mu)
 //@ field kvElection.onDemote           guarded_by(mu)
-//@ field kvElection.healthFailureCount owned_by(heartbeatLoop,handleHealthCheckFailure)
+//@ field kvElection.stopsWaiting       guarded_by(mu) counter
+//@ field kvElection.healthFailureCount owned_by(heartbeatLoop,handleHealthCheckFailure) props C12,C20
 //@ field kvElection.stopped            ghost sort Bool write_under(mu)
 //@ field kvElection.revSet             ghost sort Bool monotone    // becomeLeader has stored an own revision at least once
 
@@ -116,9 +117,11 @@ package leader
 //@ objinv disconnectHandler C11.handler_has_election: this.election != nil
 
 //@ lockinv kvElection.mu C18+C02+C01.claim_iff_state:        isLeader == (state == "LEADER")
+//@ lockinv kvElection.mu C20+C09.no_run_under_a_waiting_stop: stopsWaiting > 0 ==> stopped
+//@ lockinv kvElection.mu C20+C09.waiting_stops_counted: stopsWaiting >= caller.stopsAnnouncedHere && caller.stopsAnnouncedHere >= 0
 //@ lockinv kvElection.mu C02.claim_implies_running:  isLeader ==> (ctx != nil && !stopped)
 //@ lockinv kvElection.mu C18+C02+C09.stopped_implies_state:  stopped ==> state == "STOPPED"
-//@ lockinv kvElection.mu C09+C19.cancel_set_with_ctx:    ctx != nil ==> cancel != nil
+//@ lockinv kvElection.mu C09+C19.cancel_set_with_ctx:    ctx != nil && !stopped ==> cancel != nil
 //@ lockinv kvElection.mu C19.term_cancel_set:            isLeader ==> termCancel != nil
 //@ lockinv kvElection.mu C01.leader_has_written:         isLeader ==> revSet
 
@@ -327,6 +330,18 @@ package leader
 //@ func (e *TokenValidationError) Unwrap()
 //@   tags C15
 //@   ensures C15.unwrap_returns_cause: result == e.Err
+//@ func (e *TimeoutError) Error()
+//@   tags C15
+//@   ensures C15.message_includes_cause: e.Err != nil ==> Includes(result, ErrMsg(e.Err))
+//@ func (e *TimeoutError) Unwrap()
+//@   tags C15
+//@   ensures C15.unwrap_returns_cause: result == e.Err
+//@ func (e *ValidationError) Error()
+//@   tags C15 C16
+//@   ensures C15.message_includes_cause: e.Err != nil ==> Includes(result, ErrMsg(e.Err))
+//@ func (e *ValidationError) Unwrap()
+//@   tags C15 C16
+//@   ensures C15.unwrap_returns_cause: result == e.Err
 
 //@ func IsPermanentError(err)
 //@   tags C15 C03
@@ -391,7 +406,8 @@ package leader
 //@   on ret CircuitBreaker.Call as r set lastNil = r.result == nil
 //@   on ret CircuitBreaker.Call set ncalls = ncalls + 1
 //@   on ret CircuitBreaker.Call set waitedSinceCall = false
-//@   on ret IsPermanentError as p set lastPerm = p.result
+//@   on ret fn as r set lastPerm = Permanent(r.result)
+//@   on ret CircuitBreaker.Call as r set lastPerm = Permanent(r.result)
 //@   on ret CalculateBackoff as c set lastBackoff = c.result
 //@   on call CalculateBackoff as c assert C17.backoff_uses_attempt: c.attempt == ncalls - 1 && c.cfg == cfg.BackoffConfig
 //@   on call time.After as a assert C17.waits_computed_backoff: a.d == lastBackoff
@@ -448,6 +464,7 @@ package leader
 //@   on call ConnectionMonitor.OnReconnect as c assert C11.wires_reconnect_handler: isfunc(c.arg0, "kvElection.handleReconnect")
 //@   ensures C11.monitor_wired: result == nil && e.connectionMonitor != nil ==> calls(ConnectionMonitor.Start) == 1 && calls(ConnectionMonitor.OnDisconnect) == 1 && calls(ConnectionMonitor.OnReconnect) == 1
 //@   on call becomeFollower assert C07+C08.rounds_never_demote: false
+//@   on call wg.Add assert C20+C09.no_new_run_under_a_waiting_stop: e.stopsWaiting == 0
 
 //@ func (e *kvElection) attemptAcquireWithRetry(ctx)
 //@   tags C17 C06 C07
@@ -604,14 +621,20 @@ package leader
 //@   ghost firstLock Bool = true
 //@   on lock kvElection.mu when firstLock set wasLeaderL = e.isLeader
 //@   on lock kvElection.mu when firstLock set ctxNilL = e.ctx == nil
+//@   ghost stoppedL Bool = false
+//@   on lock kvElection.mu when firstLock set stoppedL = e.stopped
 //@   on lock kvElection.mu set firstLock = false
 //@   ghost mayCancelElection Bool = true
 //@   ghost firstUnlock Bool = true
 //@   on call cancel set e.stopped = true
-//@   on unlock kvElection.mu when firstUnlock assert C19+C09.stop_cancels_before_release: ctxNilL || calls(cancel) == 1
+//@   on unlock kvElection.mu when firstUnlock assert C19+C09.stop_cancels_before_release: ctxNilL || stoppedL || calls(cancel) == 1
 //@   on unlock kvElection.mu set firstUnlock = false
 //@   on load kvElection.onDemote as l when l.value == nil set demoteNilSeen = true
 //@   on call wg.Wait assert C09.stop_waits_time_boxed: inspawn()
+//@   ghost stopsAnnouncedHere Int = 0
+//@   on store kvElection.stopsWaiting as s set stopsAnnouncedHere = stopsAnnouncedHere + s.value - s.old
+//@   on call wg.Wait assert C20+C09.stop_wait_is_announced: stopsAnnouncedHere == 1
+//@   on return assert C20+C09.stop_wait_is_closed: stopsAnnouncedHere == 0
 //@   on select as s assert C09.stop_waits_time_boxed: s.blocking ==> s.hasAfter
 //@   on call time.After as a assert C09.stop_wait_bound: a.d == 5000000000
 //@   ensures C08.demote_iff_claim_cleared: !ctxNilL ==> (wasLeaderL ? (calls(onDemote) == 1 || (calls(onDemote) == 0 && demoteNilSeen)) : calls(onDemote) == 0)
@@ -633,18 +656,24 @@ package leader
 //@   ghost firstLock Bool = true
 //@   on lock kvElection.mu when firstLock set wasLeaderL = e.isLeader
 //@   on lock kvElection.mu when firstLock set ctxNilL = e.ctx == nil
+//@   ghost stoppedL Bool = false
+//@   on lock kvElection.mu when firstLock set stoppedL = e.stopped
 //@   on lock kvElection.mu set firstLock = false
 //@   ghost mayCancelElection Bool = true
 //@   ghost firstUnlock Bool = true
 //@   on call cancel set e.stopped = true
-//@   on unlock kvElection.mu when firstUnlock assert C19+C09.stop_cancels_before_release: ctxNilL || calls(cancel) == 1
+//@   on unlock kvElection.mu when firstUnlock assert C19+C09.stop_cancels_before_release: ctxNilL || stoppedL || calls(cancel) == 1
 //@   on unlock kvElection.mu set firstUnlock = false
-//@   on call KeyValue.Delete assert C19+C09.delete_after_cancel: calls(cancel) == 1
-//@   on call RevisionDeleter.DeleteRevision assert C19+C09.delete_after_cancel: calls(cancel) == 1
+//@   on call KeyValue.Delete assert C19+C09.delete_after_cancel: stoppedL || calls(cancel) == 1
+//@   on call RevisionDeleter.DeleteRevision assert C19+C09.delete_after_cancel: stoppedL || calls(cancel) == 1
 //@   on load kvElection.onDemote as l when l.value == nil set demoteNilSeen = true
 //@   on call KeyValue.Delete set mayDelete = opts.DeleteKey && wasLeaderL
 //@   on call RevisionDeleter.DeleteRevision set mayDelete = opts.DeleteKey && wasLeaderL
 //@   on call wg.Wait assert C09.stop_waits_time_boxed: inspawn()
+//@   ghost stopsAnnouncedHere Int = 0
+//@   on store kvElection.stopsWaiting as s set stopsAnnouncedHere = stopsAnnouncedHere + s.value - s.old
+//@   on call wg.Wait assert C20+C09.stop_wait_is_announced: stopsAnnouncedHere == 1
+//@   on return assert C20+C09.stop_wait_is_closed: stopsAnnouncedHere == 0
 //@   on select as s assert C09.stop_waits_time_boxed: s.blocking ==> s.hasAfter
 //@   on select as s assert C09.stop_waits_honour_the_callers_context: s.blocking ==> s.hasDone && s.doneCtx == ctx
 //@   ensures C08.demote_iff_claim_cleared: result == nil && !ctxNilL ==> (wasLeaderL ? (calls(onDemote) + scalls(onDemote) == 1 || (calls(onDemote) + scalls(onDemote) == 0 && demoteNilSeen)) : calls(onDemote) + scalls(onDemote) == 0)
@@ -837,7 +866,7 @@ package leader
 //@   ghost pendingCancel Bool = false
 //@   on recv ctx.Done set pendingCancel = true
 //@   on call handleRunCancelled set pendingCancel = false
-//@   on return assert C03+C02.refreshes_end_only_with_the_term: !pendingCancel
+//@   on return assert C03+C02+C19.refreshes_end_only_with_the_term: !pendingCancel
 //@   on call handleRunCancelled as c assert C03.run_cancelled_names_this_run: c.ctx == ctx
 //@   on return assert C03.failure_is_classified: failed ==> classified
 
@@ -993,6 +1022,11 @@ package leader
 //@   on call attemptAcquireWithRetry as c assert C06+C09.acquire_bound_to_election_ctx: c.ctx == ectx
 //@   ensures C06.vacancy_triggers_acquire: entry == nil || LenOf(EntryVal(entry)) == 0 ==> (ectx != nil ==> scalls(attemptAcquireWithRetry) == 1)
 //@   ensures C13.no_acquire_on_live_record: entry != nil && LenOf(EntryVal(entry)) != 0 ==> scalls(attemptAcquireWithRetry) == 0
+//@   ghost notedID Int = 0
+//@   ghost noted Bool = false
+//@   on store kvElection.leaderID as s set notedID = s.value
+//@   on store kvElection.leaderID set noted = true
+//@   ensures C18.follower_learns_the_owner_of_the_live_record: entry != nil && LenOf(EntryVal(entry)) != 0 && ParseOK(EntryVal(entry)) && !sawLeader ==> noted && notedID == IDOf(EntryVal(entry))
 //@   ghost knownLeader Int = 0
 //@   on load kvElection.leaderID as l set knownLeader = l.value
 //@   ensures C10.reevaluates_each_event: entry != nil && LenOf(EntryVal(entry)) != 0 && ParseOK(EntryVal(entry)) && !sawLeader && knownLeader == IDOf(EntryVal(entry)) && e.cfg.AllowPriorityTakeover && e.cfg.Priority > PrioOf(EntryVal(entry)) ==> scalls(attemptAcquire) == 1
